@@ -81,6 +81,7 @@ def _pick_knobs(rng, cname, hratio_hint):
         k['leaf_max_particles'] = rng.choice([10, 10, 2, 3, 5])
         k['test_parallel'] = rng.choice([False, False, True])
     cfg = {'knobs': k, 'cache0': rng.random() < 0.5,
+           'fixed_h': rng.random() < 0.3,
            'sort_gids': rng.random() < 0.25,
            'fill_all': rng.random() < 0.5}
     if cname == 'DictBoxSortNNPS':
@@ -418,6 +419,12 @@ def construct(scn, cname, cfg, pas):
               sort_gids=cfg['sort_gids'])
     kw['cache'] = cfg['cache0']
     kw.update(cfg['knobs'])
+    # fixed_h promises that h does not change with time (so it may only be
+    # set when the history has no smoothing-length change, addition or
+    # removal); it must not change the neighbour criterion
+    if cfg.get('fixed_h') and cname != 'DictBoxSortNNPS' and not any(
+            op['op'] in ('seth', 'add', 'remove') for st in scn['steps'] for op in st):
+        kw['fixed_h'] = True
     return cls(**kw)
 
 
